@@ -3,6 +3,9 @@
 package engines
 
 import (
+	"reflect"
+	"strconv"
+
 	libaudit "github.com/elastic/go-libaudit/v2"
 	"github.com/elastic/go-libaudit/v2/aucoalesce"
 )
@@ -65,6 +68,31 @@ func init() {
 	}
 	libaudit.VerifYield = hook
 	aucoalesce.VerifYield = hook
+	// lock operations announced by the instrumented copy of the library
+	libaudit.VerifSync = func(op, name string, root any) {
+		sc := getActiveSched()
+		if sc == nil {
+			return
+		}
+		t := sc.Me()
+		if t == nil {
+			return
+		}
+		key := name
+		if v := reflect.ValueOf(root); v.IsValid() && (v.Kind() == reflect.Pointer || v.Kind() == reflect.UnsafePointer) {
+			key += "@" + strconv.FormatUint(uint64(v.Pointer()), 16)
+		}
+		switch op {
+		case "lock", "once":
+			t.LockReq(key, false)
+		case "rlock":
+			t.LockReq(key, true)
+		case "unlock", "onced":
+			t.UnlockNote(key, false)
+		case "runlock":
+			t.UnlockNote(key, true)
+		}
+	}
 }
 
 // newRealNetlink builds the real NetlinkClient on top of the simulated socket.
